@@ -8,6 +8,8 @@ import (
 
 	"github.com/hashicorp/hcl-lang/lang"
 	"github.com/hashicorp/hcl-lang/schema"
+	"github.com/hashicorp/hcl/v2"
+	"github.com/hashicorp/hcl/v2/hclsyntax"
 	"github.com/zclconf/go-cty/cty"
 )
 
@@ -235,7 +237,7 @@ func runC16(run *Run, replay string) {
 		// injectivity across the run
 		if prev, ok := keyOwner[base]; ok && prev != canon {
 			run.Violate(Violation{Key: "C16/key-collision", Rule: "different sets never share a key", Func: "schema.NewSchemaKey",
-				Detail:  fmt.Sprintf("sets %q and %q both map to %s", prev, canon, base),
+				Detail: fmt.Sprintf("sets %q and %q both map to %s", prev, canon, base),
 				Replay: map[string]interface{}{"kind": "collision", "a": prev, "b": canon, "key": base}})
 		}
 		keyOwner[base] = canon
@@ -285,10 +287,83 @@ func runC16(run *Run, replay string) {
 		r := rand.New(rand.NewSource(subSeed(run.Res.Seed, bi)))
 		for _, sc := range genScenarios(r, ScenarioOpts{Histories: 2, Inject: bi%3 == 1, Gen: GenOpts{Degenerate: bi%5 == 4, DynFocus: bi%6 == 5}}) {
 			n := mergeCases(run, sc, 12)
+			n += linksOracle(run, sc)
 			run.Res.Evaluations += n
 			if n > 0 {
 				run.Distinct("merge|" + string(sc.Src))
 			}
 		}
 	}
+}
+
+// linksOracle: a documentation link sits on a label or attribute value that took part in selecting the body:
+// the range of every link of a file is the range of a dependency-key label of a top-level block, or of the
+// value of a dependency-key attribute of its static body.
+func linksOracle(run *Run, sc *Scenario) int {
+	n := 0
+	for _, p := range sc.W.Paths {
+		if p.Schema == nil {
+			continue
+		}
+		d, err := sc.W.Dec.Path(p.Path)
+		if err != nil {
+			continue
+		}
+		for _, fn := range sortedFileNames(p.Src) {
+			f := p.Ctx.Files[fn]
+			if f == nil {
+				continue
+			}
+			body, ok := f.Body.(*hclsyntax.Body)
+			if !ok {
+				continue
+			}
+			res := safeCall("LinksInFile", func() (interface{}, error) { return d.LinksInFile(fn) })
+			if res.Panic != "" || res.Err != nil {
+				continue
+			}
+			links, _ := res.Val.([]lang.Link)
+			n++
+			allowed := map[hcl.Range]bool{}
+			for _, b := range body.Blocks {
+				bs := p.Schema.Blocks[b.Type]
+				if bs == nil {
+					continue
+				}
+				for i, ls := range bs.Labels {
+					if ls.IsDepKey && i < len(b.LabelRanges) {
+						allowed[b.LabelRanges[i]] = true
+					}
+				}
+				// key attributes are declared by the static body or (two-step lookups) by a label-selected body
+				bodies := []*schema.BodySchema{bs.Body}
+				for _, db := range bs.DependentBody {
+					bodies = append(bodies, db)
+				}
+				for _, bd := range bodies {
+					if bd == nil {
+						continue
+					}
+					for name, as := range bd.Attributes {
+						if as.IsDepKey {
+							if a, ok := b.Body.Attributes[name]; ok {
+								allowed[a.Expr.Range()] = true
+							}
+						}
+					}
+				}
+			}
+			if len(links) > 0 {
+				run.Count("files_with_links")
+			}
+			for _, l := range links {
+				if !allowed[l.Range] {
+					run.Violate(Violation{Key: "C16/link-not-on-a-selecting-label-or-attribute", Rule: "documentation links are attached to exactly the labels/attributes that selected a body having a link",
+						Func: "LinksInFile", Detail: fmt.Sprintf("link %s at %v is not on a dependency-key label or attribute value", l.URI, l.Range),
+						Replay: map[string]interface{}{"src": string(p.Src[fn]), "file": fn, "schema": Show(bodySchemaS(p.Schema))}})
+				}
+			}
+		}
+	}
+	return n
 }
